@@ -8,3 +8,7 @@ package group
 // (validator, member index, public key); its definition is proved under C12.
 //@ assume func MembershipValidator.IsValidMembership
 //@   ensures result == @validMembership(recv, arg0, arg1)
+
+//@ func Group.MemberIndexes
+//@   property C05 C12
+//@   ensures result == g.memberIndexes
